@@ -18,6 +18,7 @@ from collections import defaultdict
 from rules.common import *
 import pathsens
 
+TECHNIQUE = ('static analysis over rustc MIR and the resolved call graph: effect summaries (W/RM/CREATE/STAGE) with semantic guard evaluation under append_only == Some(true) / dry_run == true (path-sensitive reachability with bool- and enum-local environment, guard helpers with `?`), completeness obligations for indirect calls')
 LEVEL = "proof"
 EXHAUSTIVE = True
 EXPLANATION = (
